@@ -119,6 +119,30 @@ def _join(base, name):
     return (base + "." + name) if base else name
 
 
+def _closure_writes(node):
+    """does the expression contain a closure whose body writes output (write!/writeln! or a method call on self)?"""
+    found = []
+
+    def walk(n, in_closure):
+        if isinstance(n, dict):
+            if n.get("k") == "closure":
+                in_closure = True
+            if in_closure:
+                if n.get("k") == "macro" and n.get("name") in ("write", "writeln"):
+                    found.append(1)
+                if n.get("k") == "mcall" and n.get("recv", {}).get("k") == "path" and n["recv"].get("v", "").replace(" ", "") == "self":
+                    found.append(1)
+                if n.get("k") == "mcall" and n.get("m") in ("write_all", "write_str", "write_fmt"):
+                    found.append(1)
+            for v in n.values():
+                walk(v, in_closure)
+        elif isinstance(n, list):
+            for v in n:
+                walk(v, in_closure)
+    walk(node, False)
+    return bool(found)
+
+
 class Interp:
     def __init__(self, methods, ch, bound=BOUND):
         self.methods = methods
@@ -422,6 +446,10 @@ class Interp:
                         env[local] = cenv[pn]
                         self.assigned = tuple(set(self.assigned) | {local})
                 return
+            # an iterator pipeline whose closure writes (`.try_for_each(|x| write!(..))`, `.for_each(|x| self.render_expr(x))`):
+            # the output happens inside the closure, which this interpreter does not enter
+            if _closure_writes(e):
+                self.unknown.append("output driven from a closure (`.%s(|..| ..)`) at line %s" % (m, e.get("ln")))
             return
         if k == "if":
             self.exec_if(e, env)
